@@ -167,7 +167,16 @@ where
             rank_out: res_infos.rank(),
         };
 
-        self.blind_rotation_execute_tmp_bytes(block_size, extension_factor, res_infos, &cbt_infos.brk_infos())
+        // The blind rotation runs on an accumulator in the layout of the blind-rotation key, not of `res`.
+        let brk_infos = cbt_infos.brk_infos();
+        let glwe_brk_infos: GLWELayout = GLWELayout {
+            n: brk_infos.n(),
+            base2k: brk_infos.base2k(),
+            k: brk_infos.max_k(),
+            rank: brk_infos.rank(),
+        };
+
+        self.blind_rotation_execute_tmp_bytes(block_size, extension_factor, &glwe_brk_infos, &brk_infos)
             .max(self.glwe_trace_tmp_bytes(res_infos, res_infos, &cbt_infos.atk_infos()))
             .max(self.ggsw_from_gglwe_tmp_bytes(res_infos, &cbt_infos.tsk_infos()))
             + GLWE::<Vec<u8>>::bytes_of_from_infos(res_infos)
